@@ -66,6 +66,9 @@ def rewrite_method_calls(text, table):
         name = toks[dot + 1].text
         recv = text[toks[rs].s:toks[dot - 1].e]
         args = text[toks[dot + 2].e:toks[close].s].strip()
-        new = f'{table[name]}({recv}{", " + args if args else ""})'
+        tramp = table[name]
+        if isinstance(tramp, tuple):      # (name, 'ref'): the method takes &self and the receiver is used again afterwards
+            tramp, recv = tramp[0], '&' + recv
+        new = f'{tramp}({recv}{", " + args if args else ""})'
         text = text[:toks[rs].s] + new + text[toks[close].e:]
         counts[name] = counts.get(name, 0) + 1
